@@ -3,9 +3,6 @@ RC.append(("hessian of a function of an empty (size-0) array: jacobian stacks an
 RC.append(("np.linalg.solve with a batched matrix and a vector right-hand side that broadcasts: wrong first-order gradient (see C01) hence a non-symmetric, wrong second derivative",
            [("C07", "solve", "RR", "hessian-not-symmetric", "batch_broadcast:True,rhs_vector:True"), ("C07", "solve", "RR", "wrong-value", "batch_broadcast:True,rhs_vector:True")]))
 RC.append(("np.diag of a non-square 2-D array (namespace scan; same root cause as the C01 entry)", [("C15", "diag", "rev", "wrong-shape", "shape_rank:2")]))
-RC.append(("forward-mode np.sort / np.partition of 2-D arrays (namespace scan; same root cause as the C02 entry)",
-           [("C15", "sort", "fwd", "wrong-shape", "shape_rank:2"), ("C15", "partition", "fwd", "wrong-shape", "shape_rank:2"),
-            ("C15", "sort", "fwd", "silently-wrong", "shape_rank:2"), ("C15", "partition", "fwd", "silently-wrong", "shape_rank:2")]))
 RC.append(("forward-mode np.linspace with an array-valued start or stop: the JVP rebuilds linspace(g, 0) and loses the other operand's shape",
            [("C15", "linspace", "fwd", "wrong-shape", "shape_rank:0")]))
 RC.append(("np.linspace with array-valued start/stop (NumPy broadcasts them): the reverse rule contracts the wrong axis and returns silently wrong or misshapen gradients",
@@ -31,8 +28,6 @@ RC.append(("np.kron beyond 2-D (see C01 entry)", [("C09", "kron", "rev", "wrong-
 RC.append(("np.linalg.norm of a complex array: the reverse rule returns the conjugate of the documented gradient and the forward rule a complex tangent for a real output",
            [("C09", "norm", "rev", "wrong-value", "arg_cplx:complex"), ("C09", "norm", "fwd", "wrong-shape", "arg_cplx:complex"),
             ("C09", "norm", "rev", "wrong-value", "ord:inf"), ("C09", "norm", "fwd", "wrong-value", "ord:inf")]))
-RC.append(("forward-mode sort/partition of >=2-D arrays (see C02 entry)",
-           [("C09", p, "fwd", k, "rank:~[2-9]") for p in ("sort", "partition") for k in ("wrong-shape", "wrong-value")]))
 RC.append(("np.linalg.pinv of a complex matrix: the rule uses plain transposes where conjugate transposes are needed", [("C09", "pinv", "rev", "wrong-value", "arg_cplx:complex")]))
 RC.append(("np.linalg.slogdet of a complex matrix: the cotangent of the (complex, non-constant) sign output is ignored", [("C09", "slogdet", "rev", "wrong-value", "arg_cplx:complex,use:~(\\[0\\]|tuple)")]))
 RC.append(("np.linalg.solve with broadcasting batch dimensions (see C01 entry), complex operands",
